@@ -207,22 +207,21 @@ _cov("exponential_kernel", "exp_cov_matrix_from", "c07_expk", ["d_ij == sqrt(c07
 # ---------------------------------------------------------------------------------------------------- split-cross schemes
 # Row k of the split tables encodes a linear functional L_k(x) = sum_{l < sz[k]} wt[k, l] * x[mp[k, l]] (a cross point of
 # pixel k // 4 minus its interpolation).  The matrix is assembled from the pairs l <= l' of each row:
-#   c07_spair = contribution of the pair (l, l + m) of row k = 4 i + j to entry (a, b), scaled by the pixel weight w_i^2
-_SP = ("(wt[i * 4 + j, l] * wt[i * 4 + j, l + m] * (w[i] * w[i]) if mp[i * 4 + j, l] == a and mp[i * 4 + j, l + m] == b else 0)"
-       " + (wt[i * 4 + j, l] * wt[i * 4 + j, l + m] * (w[i] * w[i]) if mp[i * 4 + j, l + m] == a and mp[i * 4 + j, l] == b else 0)")
+#   c07_spair0 = contribution of the pair (l, l + m) of row k = 4 i + j to entry (a, b) (before scaling by the pixel weight w_i^2)
+_SP = ("(wt[i * 4 + j, l] * wt[i * 4 + j, l + m] if mp[i * 4 + j, l] == a and mp[i * 4 + j, l + m] == b else 0)"
+       " + (wt[i * 4 + j, l] * wt[i * 4 + j, l + m] if mp[i * 4 + j, l + m] == a and mp[i * 4 + j, l] == b else 0)")
 
 
-def _spair_py(w, mp, wt, i, j, l, m, a, b):
+def _spair_py(mp, wt, i, j, l, m, a, b):
     k = 4 * i + j
-    v = wt[k, l] * wt[k, l + m] * w[i] ** 2
-    return float(v * (int(mp[k, l] == a and mp[k, l + m] == b) + int(mp[k, l + m] == a and mp[k, l] == b)))
+    return float(wt[k, l] * wt[k, l + m] * (int(mp[k, l] == a and mp[k, l + m] == b) + int(mp[k, l + m] == a and mp[k, l] == b)))
 
 
-macro("c07_spair", ["w", "mp", "wt", "i", "j", "l", "m", "a", "b"], _SP, py=_spair_py)
-_S3 = "sumto({m}, lambda m: c07_spair(w, mp, wt, {i}, {j}, {l}, m, a, b))"
+macro("c07_spair0", ["mp", "wt", "i", "j", "l", "m", "a", "b"], _SP, py=_spair_py)
+_S3 = "sumto({m}, lambda m: c07_spair0(mp, wt, {i}, {j}, {l}, m, a, b))"
 _S2 = "sumto({l}, lambda l: " + _S3.format(i="{i}", j="{j}", l="l", m="sz[{i} * 4 + {j}] - l") + ")"
 _S1 = "sumto({j}, lambda j: " + _S2.format(i="{i}", j="j", l="sz[{i} * 4 + j]") + ")"
-_S0 = "sumto({i}, lambda i: " + _S1.format(i="i", j="4") + ")"
+_S0 = "sumto({i}, lambda i: w[i] * w[i] * " + _S1.format(i="i", j="4") + ")"
 _SPLIT_LET = {"N": "splitted_mappings.shape[0]", "P": "toint(splitted_mappings.shape[0] / 4)", "w": "regularization_weights",
               "mp": "splitted_mappings", "sz": "splitted_sizes", "wt": "splitted_weights"}
 _SPLIT_REQ = ["regularization_weights.shape[0] == P", "splitted_sizes.shape[0] == N", "splitted_weights.shape[0] == N",
@@ -231,26 +230,31 @@ _SPLIT_REQ = ["regularization_weights.shape[0] == P", "splitted_sizes.shape[0] =
               "forall(0, N, lambda k: forall(0, sz[k], lambda l: 0 <= mp[k, l] and mp[k, l] < P))"]
 _HM = "forall(0, P, lambda a: forall(0, P, lambda b: regularization_matrix[a, b] == "
 _SYMM = "forall(0, P, lambda a: forall(0, P, lambda b: regularization_matrix[a, b] == regularization_matrix[b, a]))"
+_RW = "regularization_weight[i]"
+_SB = "(2e-08 if a == b and a <= i else 0) + " + _S0.format(i="i")
 contract(
     U + "pixel_splitted_regularization_matrix_from", props=["C07"],
     types={"regularization_weights": "real[1]", "splitted_mappings": "int[2]", "splitted_sizes": "int[1]", "splitted_weights": "real[2]"},
     returns="real[2]", let=_SPLIT_LET, requires=_SPLIT_REQ,
     ensures=["result.shape[0] == P and result.shape[1] == P",
-             # off-diagonal: the sum over pixels, their four cross rows and the pairs l <= l' of each row; the diagonal carries
-             # 2e-8 plus the same sum, halved
+             # off-diagonal: the sum over pixels (weight w_i^2), their four cross rows and the pairs l <= l' of each row; the diagonal
+             # carries 2e-8 plus the same sum, halved
              "forall(0, P, lambda a: forall(0, P, lambda b: result[a, b] == ((2e-08 + " + _S0.format(i="P") + ") / 2 if a == b else " + _S0.format(i="P") + ")))",
              "forall(0, P, lambda a: forall(0, P, lambda b: result[a, b] == result[b, a]))"],
     loops={
-        0: {"inv": [_HM + "(2e-08 if a == b and a < i else 0) + " + _S0.format(i="i") + "))", _SYMM]},
-        1: {"inv": [_HM + "(2e-08 if a == b and a <= i else 0) + " + _S0.format(i="i") + " + " + _S1.format(i="i", j="j") + "))", _SYMM]},
-        2: {"inv": [_HM + "(2e-08 if a == b and a <= i else 0) + " + _S0.format(i="i") + " + " + _S1.format(i="i", j="j")
-                    + " + " + _S2.format(i="i", j="j", l="l") + "))", _SYMM]},
-        3: {"inv": [_HM + "(2e-08 if a == b and a <= i else 0) + " + _S0.format(i="i") + " + " + _S1.format(i="i", j="j")
-                    + " + " + _S2.format(i="i", j="j", l="l") + " + " + _S3.format(i="i", j="j", l="l", m="m") + "))", _SYMM],
-            "assert_at": {0: ["regularization_weight[i] == w[i] * w[i]"]}},
+        0: {"inv": [_HM + "(2e-08 if a == b and a < i else 0) + " + _S0.format(i="i") + "))", _SYMM],
+            "assert_at": {2: ["regularization_weight[i] == w[i] * w[i]"]}},
+        1: {"inv": [_HM + _SB + " + " + _RW + " * " + _S1.format(i="i", j="j") + "))", _SYMM]},
+        2: {"inv": [_HM + _SB + " + " + _RW + " * " + _S1.format(i="i", j="j") + " + " + _RW + " * " + _S2.format(i="i", j="j", l="l") + "))", _SYMM]},
+        3: {"inv": [_HM + _SB + " + " + _RW + " * " + _S1.format(i="i", j="j") + " + " + _RW + " * " + _S2.format(i="i", j="j", l="l")
+                    + " + " + _RW + " * " + _S3.format(i="i", j="j", l="l", m="m") + "))", _SYMM],
+            # stepping stone: the weight distributes over the one new pair of the partial sum
+            "assert_at": {0: ["forall(0, P, lambda a: forall(0, P, lambda b: " + _RW + " * " + _S3.format(i="i", j="j", l="l", m="m + 1") + " == " + _RW + " * " + _S3.format(i="i", j="j", l="l", m="m")
+                              + " + (weight[l] * weight[l + m] * " + _RW + " if mapping[l] == a and mapping[l + m] == b else 0)"
+                              " + (weight[l] * weight[l + m] * " + _RW + " if mapping[l + m] == a and mapping[l] == b else 0)))"]}},
         4: {"inv": [_HM + "((2e-08 + " + _S0.format(i="P") + ") / 2 if a == b and a < i else (2e-08 if a == b else 0) + " + _S0.format(i="P") + ")))", _SYMM]},
     },
-    sentence={"sumto": "H = 1e-8 I + sum over cross rows k of w_{k//4}^2 times the pair products of row k (entrywise)",
+    sentence={"sumto": "H = 1e-8 I + sum over pixels i and their four cross rows k of w_i^2 times the pair products of row k (entrywise)",
               "result[b, a]": "the split-cross matrix is symmetric for all tables"},
 )
 
@@ -276,6 +280,11 @@ contract(
     # a row that already fills every column cannot take the extra entry
     raises={"MeshException": "exists(0, N, lambda r: splitted_sizes[r] >= W)"},
     ensures=[_ROWDONE.format(n="N"),
+             # rows that listed pairwise distinct pixels still do (the own pixel is appended only when absent): the hypothesis of C07.split.outer_product
+             "forall(0, N, lambda r: implies(forall(0, {s}[r], lambda c: forall(0, c, lambda t: {m}[r, t] != {m}[r, c])),"
+             " forall(0, splitted_sizes[r], lambda c: forall(0, c, lambda t: splitted_mappings[r, t] != splitted_mappings[r, c]))))".format(**_O),
+             # every returned row lists its own pixel and stays inside the table
+             "forall(0, N, lambda r: splitted_sizes[r] <= W and exists(0, splitted_sizes[r], lambda c: splitted_mappings[r, c] == r // 4))",
              "forall(0, N, lambda r: forall(0, W, lambda c: result[0][r, c] == splitted_mappings[r, c] and result[2][r, c] == splitted_weights[r, c]))",
              "forall(0, N, lambda r: result[1][r] == splitted_sizes[r])",
              "result[0].shape[0] == N and result[0].shape[1] == W and result[1].shape[0] == N and result[2].shape[0] == N and result[2].shape[1] == W"],
@@ -624,3 +633,90 @@ corollary("C07.quadratic_form.weighted_symmetric", props=["C07"],
                    # symmetric table: x^T H x = 1e-8 |x|^2 + (1/2) sum_a sum_b mult(a, b) (w_a^2 + w_b^2) (x_a - x_b)^2
                    _XHX + " == 1e-08 * " + _X2P + " + " + _PAIRSW2.format(n="P") + " / 2"],
           sentence="for a symmetric neighbour table the pair (i, j) is weighted by exactly w_i^2 + w_j^2")
+
+
+# ==================================================================================================== split-cross scheme: outer-product form
+# From the entrywise contract of pixel_splitted_regularization_matrix_from alone:  with c_k(a) = sum_l [mp[k, l] == a] wt[k, l] (the
+# coefficient of x_a in L_k) and q_k(a) = sum_l [mp[k, l] == a] wt[k, l]^2,
+#     H[a, b] = [a == b] 1e-8 + (1/2 if a == b else 1) * sum_i w_i^2 sum_{j<4} (c_k(a) c_k(b) + [a == b] q_k(a)),   k = 4 i + j,   (LE)
+# and, when every row lists pairwise distinct pixels (q_k(a) = c_k(a)^2),
+#     H = 1e-8 I + sum_k w_{k//4}^2 L_k L_k^T.                                                                                   (DS3)
+macro("c07_sc", ["mp", "wt", "i", "j", "a", "n"], "sumto(n, lambda l: (wt[i * 4 + j, l] if mp[i * 4 + j, l] == a else 0))",
+      py=lambda mp, wt, i, j, a, n: float(sum(wt[4 * i + j, l] for l in range(int(n)) if mp[4 * i + j, l] == a)))
+macro("c07_sq", ["mp", "wt", "i", "j", "a", "n"], "sumto(n, lambda l: (wt[i * 4 + j, l] * wt[i * 4 + j, l] if mp[i * 4 + j, l] == a else 0))",
+      py=lambda mp, wt, i, j, a, n: float(sum(wt[4 * i + j, l] ** 2 for l in range(int(n)) if mp[4 * i + j, l] == a)))
+macro("c07_sh", ["mp", "wt", "i", "j", "l", "a", "n"], "sumto(n, lambda m: (wt[i * 4 + j, l + m] if mp[i * 4 + j, l + m] == a else 0))",
+      py=lambda mp, wt, i, j, l, a, n: float(sum(wt[4 * i + j, l + m] for m in range(int(n)) if mp[4 * i + j, l + m] == a)))
+
+
+def _split_chain():
+    SC = lambda a, n: "c07_sc(mp, wt, i, j, %s, %s)" % (a, n)
+    SQ = lambda a, n: "c07_sq(mp, wt, i, j, %s, %s)" % (a, n)
+    SH = lambda a, n: "c07_sh(mp, wt, i, j, l, %s, %s)" % (a, n)
+    S = "sz[i * 4 + j]"
+    T3 = lambda M: _S3.format(i="i", j="j", l="l", m=M)
+    T2 = lambda n: _S2.format(i="i", j="j", l=n)
+    T1 = lambda jn: _S1.format(i="i", j=jn)
+    T0 = lambda n: _S0.format(i=n)
+    E = lambda n: "(" + SC("a", n) + " * " + SC("b", S) + " + " + SC("b", n) + " * " + SC("a", S) + " - " + SC("a", n) + " * " + SC("b", n) + " + (" + SQ("a", n) + " if a == b else 0))"
+    D = "(" + SC("a", S) + " * " + SC("b", S) + " + (" + SQ("a", S) + " if a == b else 0))"
+    SROW = lambda jn: "sumto(%s, lambda j: %s)" % (jn, D)
+    SALL = lambda n: "sumto(%s, lambda i: w[i] * w[i] * %s)" % (n, SROW("4"))
+    OP = "(" + SC("a", S) + " * " + SC("b", S) + ")"
+    OROW = lambda jn: "sumto(%s, lambda j: %s)" % (jn, OP)
+    OALL = lambda n: "sumto(%s, lambda i: w[i] * w[i] * %s)" % (n, OROW("4"))
+    HYP = ("w.shape[0] == P and mp.shape[0] >= 4 * P and sz.shape[0] == mp.shape[0] and wt.shape[0] == mp.shape[0] and wt.shape[1] == mp.shape[1]"
+           " and forall(0, mp.shape[0], lambda k: 0 <= sz[k] and sz[k] <= mp.shape[1])")
+    DIST = "forall(0, 4 * P, lambda k: forall(0, sz[k], lambda l: forall(0, l, lambda t: mp[k, t] != mp[k, l])))"
+    QL = lambda body, pat, extra="": ("forall(0, P, lambda i: forall(0, 4, lambda j: forall(0, " + S + ", lambda l: forall(0, P, lambda a: forall(0, P, lambda b: implies("
+                                      + HYP + extra + ", " + body + "), pat=" + pat + ")))))")
+    QIJ = lambda body, pat, extra="": "forall(0, P, lambda i: forall(0, 4, lambda j: forall(0, P, lambda a: forall(0, P, lambda b: implies(" + HYP + extra + ", " + body + "), pat=" + pat + "))))"
+    QA = lambda body, pat, extra="": "forall(0, P, lambda i: forall(0, 4, lambda j: forall(0, P, lambda a: implies(" + HYP + extra + ", " + body + "), pat=" + pat + ")))"
+    UA = lambda a, b, lim: "(wt[i * 4 + j, l] * (" + SC(b, lim) + " - " + SC(b, "l") + ") if mp[i * 4 + j, l] == " + a + " else 0)"
+    L = []
+
+    def lem(name, stmt, induct=None, hi=None, export=False):
+        L.append(dict(name=name, induct=induct, lo=0, hi=hi, stmt=stmt, export=export) if induct else dict(name=name, noinduct=True, stmt=stmt, export=export))
+
+    # pairs (l, l + m), m < M, of one row: wt_l times the partial coefficient sums over the positions l .. l + M - 1
+    lem("LA1", QL(T3("M") + " == (wt[i * 4 + j, l] * " + SH("b", "M") + " if mp[i * 4 + j, l] == a else 0) + (wt[i * 4 + j, l] * " + SH("a", "M") + " if mp[i * 4 + j, l] == b else 0)", T3("M")), "M", "mp.shape[1]")
+    lem("LA2", "forall(0, P, lambda i: forall(0, 4, lambda j: forall(0, " + S + ", lambda l: forall(0, P, lambda a: implies(" + HYP + ", " + SH("a", "M") + " == " + SC("a", "l + M") + " - " + SC("a", "l")
+               + "), pat=" + SH("a", "M") + "))))", "M", "mp.shape[1]")
+    lem("LA", QL(T3("M") + " == " + UA("a", "b", "l + M") + " + " + UA("b", "a", "l + M"), T3("M")), "M", "mp.shape[1]")
+    # discrete product rule: all pairs l <= l' with l < n
+    lem("LBe", QL(E("l + 1") + " == " + E("l") + " + " + UA("a", "b", S) + " + " + UA("b", "a", S), "(" + SC("a", "l + 1") + ", " + SC("b", "l + 1") + ")"))
+    lem("LB", QIJ(T2("n") + " == " + E("n"), T2("n"), " and n <= " + S), "n", "mp.shape[1]")
+    lem("LC", "forall(0, P, lambda i: forall(0, P, lambda a: forall(0, P, lambda b: implies(" + HYP + ", " + T1("n") + " == " + SROW("n") + "), pat=" + T1("n") + ")))", "n", "4")
+    lem("LE", "forall(0, P, lambda a: forall(0, P, lambda b: implies(" + HYP + ", " + T0("n") + " == " + SALL("n") + "), pat=" + T0("n") + "))", "n", "P", export=True)
+    # rows with pairwise distinct entries: q_k(a) == c_k(a)^2
+    lem("DS0", QA("implies(forall(0, n, lambda l: mp[i * 4 + j, l] != a), " + SC("a", "n") + " == 0 and " + SQ("a", "n") + " == 0)", "(" + SC("a", "n") + ", " + SQ("a", "n") + ")"), "n", "mp.shape[1]")
+    lem("DS1", QA(SQ("a", "n") + " == " + SC("a", "n") + " * " + SC("a", "n"), "(" + SC("a", "n") + ", " + SQ("a", "n") + ")", " and " + DIST + " and n <= " + S), "n", "mp.shape[1]")
+    lem("DS2", "forall(0, P, lambda i: forall(0, P, lambda a: forall(0, P, lambda b: implies(" + HYP + " and " + DIST + ", " + SROW("n") + " == (2 if a == b else 1) * " + OROW("n") + "), pat=" + SROW("n") + ")))", "n", "4")
+    lem("DS3", "forall(0, P, lambda a: forall(0, P, lambda b: implies(" + HYP + " and " + DIST + ", " + SALL("n") + " == (2 if a == b else 1) * " + OALL("n") + "), pat=" + SALL("n") + "))", "n", "P", export=True)
+
+    def _hs_py(w, mp, sz, wt, a, b):
+        tot = 0.0
+        for i in range(len(w)):
+            for j in range(4):
+                k = 4 * i + j
+                ca = sum(wt[k, l] for l in range(int(sz[k])) if mp[k, l] == a)
+                cb = sum(wt[k, l] for l in range(int(sz[k])) if mp[k, l] == b)
+                tot += w[i] ** 2 * ca * cb
+        return float(tot)
+
+    # entry (a, b) of sum_k w_{k//4}^2 L_k L_k^T
+    spec_fn("c07_hs", params=[("w", "real[1]"), ("mp", "int[2]"), ("sz", "int[1]"), ("wt", "real[2]"), ("a", "int"), ("b", "int")], ret="real",
+            let={"P": "w.shape[0]"},
+            axioms=["implies(" + HYP + ", forall(0, P, lambda a: forall(0, P, lambda b: c07_hs(w, mp, sz, wt, a, b) == " + OALL("P") + ", pat=c07_hs(w, mp, sz, wt, a, b))))"],
+            lemmas=L, py=_hs_py, doc="entry (a, b) of sum over cross rows k of w_{k//4}^2 L_k L_k^T, L_k(a) = coefficient of x_a in row k")
+    return DIST, SALL
+
+
+_DIST, _SALLF = _split_chain()
+_SPREQ = [r.replace("regularization_weights", "w").replace("splitted_sizes", "sz").replace("splitted_weights", "wt").replace("splitted_mappings", "mp") for r in _SPLIT_REQ]
+corollary("C07.split.outer_product", props=["C07"], vars={"w": "real[1]", "mp": "int[2]", "sz": "int[1]", "wt": "real[2]"},
+          let={"N": "mp.shape[0]", "P": "toint(mp.shape[0] / 4)"},
+          requires=_SPREQ + [_DIST],                 # every row lists pairwise distinct pixels (true of the tables reg_split_from returns)
+          calls=[("H", U + "pixel_splitted_regularization_matrix_from", {"regularization_weights": "w", "splitted_mappings": "mp", "splitted_sizes": "sz", "splitted_weights": "wt"})],
+          ensures=["forall(0, P, lambda a: forall(0, P, lambda b: H[a, b] == (1e-08 if a == b else 0) + c07_hs(w, mp, sz, wt, a, b)))"],
+          sentence="the split-cross matrix is 1e-8 I + sum over cross rows k of w_{k//4}^2 L_k L_k^T (a sum of rank-one PSD terms plus a ridge)")
